@@ -17,10 +17,12 @@ UNIT = "C04_motor"
 IMPORTS = ["from Reduino.Actuators import DCMotor", "from Reduino.Communication import SerialMonitor",
            "from Reduino.Core import analog_read"]
 META_PART = ("C04_motor: device model of set_speed/backward/stop/coast/invert/ramp (20 steps)/run_for with the PWM rounding "
-             "static_cast<int>(|x|*255+0.5f) and truncating delays; clamp clause proved for all values and histories; the mode/pin difference "
-             "for 0 < |speed| < 1/510 refuted with the witness set_speed(0.001); get_mode(); device = host proved for ALL commands and histories inside "
-             "the guard (C04_motor_partial: firmware events = host level signal event by event with duty = nearest PWM count, proved within 1/2 count "
-             "of 255*|applied|; sleeps truncated, proved < 1 ms; getters equal; no host call raises).")
+             "static_cast<int>(|x|*255+0.5f), direction pins and mode decided by the applied speed being non-zero (not by the PWM count), and "
+             "truncating delays; clamp clause proved for all values and histories; device = host proved for ALL commands and histories with speeds in "
+             "-1..1 of ANY magnitude and durations >= 0 (C04_motor_partial: firmware events = host level signal event by event with duty = nearest "
+             "PWM count, proved within 1/2 count of 255*|applied|; sleeps truncated, proved < 1 ms; getters equal; no host call raises). The former "
+             "refutation (0 < |speed| < 1/510: host mode drive, device coast with all pins LOW) is repaired in Reduino and replaced by "
+             "C04_motor_mode_follows_applied_speed and the unguarded simulation; its witness is replayed first on every run.")
 
 NAMES = {0: "set_speed", 1: "backward", 2: "stop", 3: "coast", 4: "invert", 5: "ramp", 6: "run_for", 7: "get_speed",
          8: "get_applied_speed", 9: "is_inverted", 10: "get_mode"}
@@ -52,8 +54,10 @@ def emit_case(b: Builder, cid, case):
             b.add(f"{name}.{NAMES[o['code']]}({', '.join(ex)})")
 
 
-SPEEDS = [0, 1, -1, 0.5, -0.5, 0.25, 0.75, -0.75, 0.125, 1 / 256, -1 / 256, 1 / 64, 1.0, True]
-SPEEDS_OUT = [2, -2, 1.5, -1.25, 300, 1 / 1024, -1 / 1024, 0.001]
+# 1/1024, -1/1024, 1/512, 0.001: 0 < |x| < 1/510, PWM count 0 although the motor drives (the region the former finding
+# F-C04-motor-tiny-speed-mode excluded); 1/256: count 1
+SPEEDS = [0, 1, -1, 0.5, -0.5, 0.25, 0.75, -0.75, 0.125, 1 / 256, -1 / 256, 1 / 64, 1.0, True, 1 / 1024, -1 / 1024, 1 / 512, 0.001]
+SPEEDS_OUT = [2, -2, 1.5, -1.25, 300, -300, 1.0009765625]
 DURS = [0, 1, 19, 20, 21, 50, 100, 2.5, 10.5]
 
 
@@ -234,23 +238,51 @@ def case_from_replay(r):
             "family": "replay", "stream": "guard"}
 
 
-def load_findings(ctx):
+def unit_findings(ctx):
     items = {f["id"]: f for f in ctx.findings if f.get("unit") == UNIT}
-    p = C.VERIF / "known_findings.d" / "C04.json"
+    p = C.VERIF / "known_findings.d" / "C04.json"          # the source of known_findings.json: its entries win
     if p.exists():
         for f in json.loads(p.read_text()):
             if f.get("unit") == UNIT:
-                items.setdefault(f["id"], f)
-    return [f for f in items.values() if f.get("kind") != "fixed"]
+                items[f["id"]] = f
+    return list(items.values())
 
 
-def finding_reproduces(ctx, f):
+def load_findings(ctx):
+    return [f for f in unit_findings(ctx) if f.get("kind") != "fixed"]
+
+
+def witness_failures(ctx, f):
     case = case_from_replay(f["witness"]["replay"])
     recs, _ = run_batch(ctx, [case])
     rec = recs[0]
-    if rec["fw"] is None or rec["host"] is None:
-        return False
-    return bool(oracle_one(case, fw_seq(rec["fw"]), host_items(rec["host"])))
+    if rec["fw"] is None:
+        return case, [{"what": f"the witness script is not transpiled/compiled/run: {rec['why']}", "expected": "firmware", "observed": rec["why"], "key": "motor-witness"}]
+    if rec["host"] is None or rec.get("host_why"):
+        return case, [{"what": f"the host class raised on the witness: {rec.get('host_why')}", "expected": "no exception", "observed": rec.get("host_why"),
+                       "key": "motor-witness"}]
+    return case, oracle_one(case, fw_seq(rec["fw"]), host_items(rec["host"]))
+
+
+def finding_reproduces(ctx, f):
+    return bool(witness_failures(ctx, f)[1])
+
+
+def replay_fixed(ctx):
+    """repaired defects (kind "fixed") suppress nothing: their witnesses are replayed FIRST, and one that fails again is a VIOLATION
+    whose replay is the witness"""
+    n = 0
+    for f in unit_findings(ctx):
+        if f.get("kind") != "fixed":
+            continue
+        n += 1
+        case, F = witness_failures(ctx, f)
+        if F:
+            pub = case_pub(case)
+            pub["finding"] = f["id"]
+            pub["witness"] = f["witness"]
+            ctx.fail(f"repaired defect {f['id']} is back: {F[0]['what']}", pub, F[0]["expected"], F[0]["observed"], key="fixed-defect-returned:" + f["id"])
+    return n
 
 
 def run_unit(ctx: C.Ctx):
@@ -262,7 +294,11 @@ def run_unit(ctx: C.Ctx):
         c["stream"] = "guard" if (m is not None and m and m[0] == 0 and all(m[7])) else "clamp"
     recs, n_sketches = run_batch(ctx, cases)
     stats = {"cases": len(cases), "sketches": n_sketches, "streams": {}, "families": {}, "ops": {}, "arg_kinds": {"literal": 0, "run-time": 0},
-             "fw_events": 0, "oracle_cases": 0, "clamp_cases": 0, "duty_off_by_one_vs_model": 0, "drive_changes": 0, "getter_prints": 0}
+             "fw_events": 0, "oracle_cases": 0, "clamp_cases": 0, "duty_off_by_one_vs_model": 0, "drive_changes": 0, "getter_prints": 0,
+             "drive_changes_with_pwm_0_while_driving_in_guard": 0,
+             "fixed_witnesses_replayed_first": getattr(ctx, "c04_fixed_replayed", {}).get(UNIT)}
+    if stats["fixed_witnesses_replayed_first"] is None:
+        stats["fixed_witnesses_replayed_first"] = replay_fixed(ctx)
     distinct, seen_fail = set(), set()
     for n, (c, r, m) in enumerate(zip(cases, recs, model)):
         stats["streams"][c["stream"]] = stats["streams"].get(c["stream"], 0) + 1
@@ -328,6 +364,7 @@ def run_unit(ctx: C.Ctx):
         fseq, hseq = fw_seq(r["fw"]), host_items(r["host"])
         stats["oracle_cases"] += 1
         stats["drive_changes"] += sum(1 for x in fseq if x[0] == "lvl")
+        stats["drive_changes_with_pwm_0_while_driving_in_guard"] += sum(1 for x in hseq if x[0] == "lvl" and x[2] == "drive" and 0 < 255 * abs(x[1]) < Fraction(1, 2))
         if sum(1 for x in fseq if x[0] == "lvl") >= 2:
             distinct.add(json.dumps([x[:4] for x in fseq]))
         # host model vs real host: getter values and drive changes (through the model's canon of the host side is not needed: compare getters)
@@ -348,13 +385,14 @@ def run_unit(ctx: C.Ctx):
         "distinct_nontrivial": len(distinct),
         "rule": "motor cases = command sequences on a fresh DCMotor followed by the four getters: ordered pairs over a boundary alphabet (speeds that are "
                 "dyadic rationals so that float32 and the exact model agree, durations 0/1/19/20/21/50/100/2.5/10.5), a speed grid with and without "
-                "invert, seeded random sequences of 2-9 commands, and a stream with speeds outside -1..1 and tiny speeds (firmware + device model only). "
-                "A case is inside the guard iff the MODEL's motor_in_range holds for every command (speeds within -1..1, durations >= 0, no applied "
-                "speed with 0 < |x| < 1/510). evaluations = in-guard cases through the oracle + cases through the clamp oracle.",
+                "invert (including speeds 1/1024, -1/1024, 1/512, 0.001 whose PWM count is 0 while the motor drives), seeded random sequences of 2-9 "
+                "commands, and a stream with speeds outside -1..1 (firmware + device model only). "
+                "A case is inside the guard iff the MODEL's motor_in_range holds for every command (speeds within -1..1, durations >= 0). The witness of "
+                "the repaired finding is replayed before anything else. evaluations = in-guard cases through the oracle + cases through the clamp oracle.",
         "samples": [case_pub(c) for c in cases[:1] + cases[-1:]],
         "distribution": stats,
-        "guard": "speeds within -1..1 and durations >= 0 (the host clamps larger speeds as well; they are exercised in the device-only stream); no applied "
-                 "speed with 0 < |x| < 1/510 (outside: F-C04-motor-tiny-speed-mode)",
+        "guard": "speeds within -1..1 and durations >= 0 (the host clamps larger speeds as well; they are exercised in the device-only stream). No listed "
+                 "finding is excluded: F-C04-motor-tiny-speed-mode is repaired (kind fixed); speeds with 0 < |x| < 1/510 are generated and compared",
         "unmodelled": ["float32 arithmetic of the device (exact rationals; PWM duty compared within one count, which the statement allows)",
                        "numeric strings accepted by the host's float()", "negative durations (the host raises; the device clamps to 0)",
                        ],
